@@ -261,6 +261,29 @@ def handleInts (op : String) (xs : List Int) : Option String :=
         | [] => none
       | [] => none
     | [] => none
+  | "awa" =>
+    -- awa n0 n1 n2 n3  p1x p1y p2x p2y  k (id x y)^k  nIsT1 m mIsH mark
+    match xs with
+    | n0 :: n1 :: n2 :: n3 :: ax :: ay :: bx :: bY :: k :: r => do
+      if k < 0 then none
+      let (cs, r) ← parseTh k.toNat r
+      match r with
+      | [t1, m, mh, mark] =>
+        some (showOpt (addWedgeAllene (endsOf n0 n1 n2 n3) (ax, ay) (bx, bY) (fun x => cs.lookup x) (t1 != 0) m.toNat (mh != 0) mark))
+      | _ => none
+    | _ => none
+  | "wsa" =>
+    -- wsa n0 n1 n2 n3 <Hatoms> x0 x1 pax pay pbx pby px1x px1y stored
+    match xs with
+    | n0 :: n1 :: n2 :: n3 :: r => do
+      let (hs, r) ← takeList r
+      match r with
+      | [x0, x1, ax, ay, bx, bY, qx, qy, st] =>
+        some (match wedgeSignAllene (endsOf n0 n1 n2 n3) (hFun hs) x0.toNat x1.toNat (ax, ay) (bx, bY) (qx, qy) (tri st) with
+              | .ok v => s!"ok {v}"
+              | .error e => "err " ++ e.name)
+      | _ => none
+    | _ => none
   | "rdb" =>
     match xs with
     | d :: sh :: r => do
